@@ -409,8 +409,24 @@ def spaces(tier):
         maxd = depth if tier == "quick" else 3
         levels = [(L, gen_factory(L)) for L in range(1, maxd + 1)]
         if tier == "thorough":
-            # depth 3 only over a reduced alphabet: handled by thinning inside gen via state filter
-            levels = [(1, gen_factory(1)), (2, gen_factory(2))]
+            # depth 3 over a reduced alphabet: root reads, `new` events and the first six
+            # reads of each partition (indices refer to the full alphabet A)
+            seen_per_obj = {}
+            red = []
+            for i, e in enumerate(A):
+                if e[0].startswith("new") or e[1] == "root":
+                    red.append(i)
+                else:
+                    c = seen_per_obj.get(e[1], 0)
+                    if c < 6:
+                        red.append(i)
+                    seen_per_obj[e[1]] = c + 1
+            red = red[:28]
+
+            def gen3(ci=ci, red=red):
+                for h in itertools.product(red, repeat=3):
+                    yield (ci, 0, h, 1)
+            levels = [(1, gen_factory(1)), (2, gen_factory(2)), (3, gen3)]
         out.append(Space(fn.__name__, levels, nA, {"case": fn.__name__, "events": nA, "max_history": len(levels),
                                                    "start_states": STARTS}))
     return out
